@@ -3,9 +3,11 @@ package main
 import (
 	"encoding/binary"
 	"encoding/hex"
+	"reflect"
 	"sort"
 	"strconv"
 	"strings"
+	"unsafe"
 
 	"github.com/valinurovam/garagemq/amqp"
 	"github.com/valinurovam/garagemq/interfaces"
@@ -47,6 +49,9 @@ func runMsgCase(kind string, dir string, confirm bool, ops []string) (outs []str
 			c.pos++
 			c.kill()
 			c.outs[i] = "_"
+		case "X":
+			c.pos++
+			c.outs[i] = c.graceful()
 		case "B", "C":
 			// terminator without a running split persist
 			c.pos++
@@ -334,6 +339,34 @@ func (c *msgCase) whole() (out string) {
 	return atoms(a)
 }
 
+// graceful is X: MsgStorage.Close() - which persists once more and closes the engine - then a restart.
+// The storage was built without its ticker goroutine, so somebody has to take the value Close sends on the
+// unexported closeCh: a one-shot receiver reached through reflection.
+func (c *msgCase) graceful() (out string) {
+	h := c.eng.hk()
+	h.clear()
+	defer func() {
+		if r := recover(); r != nil {
+			out = "PANIC"
+			c.kill()
+		}
+	}()
+	f := reflect.ValueOf(c.st).Elem().FieldByName("closeCh")
+	ch := reflect.NewAt(f.Type(), unsafe.Pointer(f.UnsafeAddr())).Elem().Interface().(chan bool)
+	go func() { <-ch }()
+	var early []string
+	h.beforeApply = func() { early = c.relayAtoms() }
+	if err := c.st.Close(); err != nil {
+		panic(err)
+	}
+	a := append(append(early, c.batchAtoms()...), c.relayAtoms()...)
+	h.clear()
+	c.st = nil
+	c.eng.reopen()
+	c.build()
+	return atoms(a)
+}
+
 // segment runs the ops of one window up to its terminator (B or C) and returns
 // the position of the terminator. A K, an op that panics and the end of the op
 // list all unwind the running persist with killNow.
@@ -350,8 +383,9 @@ func (c *msgCase) segment(term string) int {
 		case "K":
 			c.outs[i] = "_"
 			panic(killNow{})
-		case "S", "T", "B", "C":
-			// not a segment op: no nesting, no foreign terminator
+		case "S", "T", "B", "C", "P", "X":
+			// not a segment op: no nesting, no foreign terminator; PurgeQueue (and Close) take the flushLock that the
+			// running persist holds - in the real code they wait for it to finish, they cannot happen in here
 			c.outs[i] = "_"
 		default:
 			out, died := c.safeSimple(c.ops[i])
